@@ -4739,7 +4739,7 @@ class FlowIR(object):
 
 def map_placeholder_id_to_iteration(comp_id, do_whiles, known_component_ids, out_comp=False):
     loop_ids = [c for c in known_component_ids if (len(c[1].split('#', 1)) == 2)]
-    condition_instances = [c for c in loop_ids if c[1].split('#', 1)[1] == comp_id[1]]
+    condition_instances = [c for c in loop_ids if c[1].split('#', 1)[1] == comp_id[1] and c[0] == comp_id[0]]
 
     if not condition_instances:
         return None
